@@ -7,7 +7,9 @@ from sa import alpha
 repo = "/repo"
 tmp = tempfile.mkdtemp(prefix="rnprobe_")
 dst = os.path.join(tmp, "repo")
-subprocess.check_call(["rsync", "-a", "--exclude", ".git", "--exclude", "build", repo + "/", dst + "/"])
+# copy of the committed tree (seeded changes may be applied to the working tree while this runs)
+os.makedirs(dst, exist_ok=True)
+subprocess.check_call("git -C %s archive HEAD | tar -x -C %s" % (repo, dst), shell=True)
 only = set(sys.argv[2:])  # optional file filter
 n = 0
 for f in sorted(os.listdir(os.path.join(dst, "sasmodels"))):
